@@ -265,16 +265,49 @@ func c12Long(c *Ctx, idx int) {
 		}
 	}
 }
+// c12Prose: strings that look like prose - runs of 20..70 single-byte characters with an occasional
+// multi-byte one - sliced with every step from 1 to 80 and several starts: skipping by blocks
+// of bytes goes wrong exactly where a block ends inside one of the sparse multi-byte characters.
+func c12Prose(c *Ctx, idx int) {
+	r := c.Rand("")
+	var b strings.Builder
+	total := 60 + r.Intn(300)
+	for n := 0; n < total; {
+		run := 20 + r.Intn(50)
+		for k := 0; k < run && n < total; k++ {
+			b.WriteByte("abcdefghijklmnopqrstuvwxyz ,."[r.Intn(29)])
+			n++
+		}
+		b.WriteString(gen.Pick(r, []string{"é", "ü", "✓", "日", "𝌆", "😀", "\ufffd", "é✓"}))
+		n++
+	}
+	doc := ref.NewObj()
+	doc.Set("s", b.String())
+	goDoc := ref.ToGo(doc, ref.JSONNumber)
+	start := r.Intn(40)
+	for step := 1; step <= 80; step++ {
+		if step > 8 && (step+idx)%3 != 0 {
+			continue
+		}
+		for _, f := range []string{fmt.Sprintf("s[%d::%d]", start, step), fmt.Sprintf("s[::%d]", step), fmt.Sprintf("s[%d:%d:%d]", start, start+3*step+1, step), fmt.Sprintf("s[::-%d]", step), fmt.Sprintf("s | [%d::%d]", start/2, step)} {
+			m, _ := c.CheckModel("C12", f, doc, goDoc, CheckOpts{Features: map[string]string{"stream": "prose"}})
+			if !m.Unspec {
+				c.Nontrivial(f, fmt.Sprint(idx))
+			}
+		}
+	}
+}
 
 func init() {
 	Register(&Property{
 		ID:            "C12",
-		Rule:          "x[start:stop:step] on arrays [0..n-1] and on strings of n mixed-width code points and of n single-byte characters (also as a bare slice of the current node after a pipe): exhaustive lattice n in 0..7 x start,stop in {absent, -9..9, +-2^62, 2^63-1, -2^63, -2^63+1} x step in {absent, +-1,2,3,7,8, 2^63-1, -2^63, -2^63+1, 2^62, 0, -0}, every spelling of absent parts; seeded n <= 300 with random 64-bit parameters plus the projection rule (array slice projects, string slice does not); long stream: a 70000-element array and 70000-character strings (mixed-width and single-byte) with every pair of bounds from {absent, 0, 1, 2^15-1..2^15+1, 2^16-2..2^16+1, 69999..70001, their negatives, 2^17-1, 2^17} in every syntactic position of a slice or index; nested stream: slices inside the right-hand side of another slice's projection, beside it in multi-selects, after pipes/flatten, inside filters and expression references, over 2-D/3-D arrays and records of arrays and strings; compared with the specification's slice algorithm on big integers (model and a second direct oracle); non-trivial = model decides; distinct by (carrier, slice text, n)",
+		Rule:          "x[start:stop:step] on arrays [0..n-1] and on strings of n mixed-width code points and of n single-byte characters (also as a bare slice of the current node after a pipe): exhaustive lattice n in 0..7 x start,stop in {absent, -9..9, +-2^62, 2^63-1, -2^63, -2^63+1} x step in {absent, +-1,2,3,7,8, 2^63-1, -2^63, -2^63+1, 2^62, 0, -0}, every spelling of absent parts; seeded n <= 300 with random 64-bit parameters plus the projection rule (array slice projects, string slice does not); prose stream: strings of 60-360 characters made of runs of 20-70 single-byte characters separated by single multi-byte ones, sliced with every step 1..80 from several starts; long stream: a 70000-element array and 70000-character strings (mixed-width and single-byte) with every pair of bounds from {absent, 0, 1, 2^15-1..2^15+1, 2^16-2..2^16+1, 69999..70001, their negatives, 2^17-1, 2^17} in every syntactic position of a slice or index; nested stream: slices inside the right-hand side of another slice's projection, beside it in multi-selects, after pipes/flatten, inside filters and expression references, over 2-D/3-D arrays and records of arrays and strings; compared with the specification's slice algorithm on big integers (model and a second direct oracle); non-trivial = model decides; distinct by (carrier, slice text, n)",
 		MinNontrivial: 5000,
 		Streams: []Stream{
 			{Name: "lattice", N: c12LatticeN, Run: c12Lattice, Exhaustive: true},
 			{Name: "random", N: func(c *Ctx) int { return tierN(c, 20000, 4000000) }, Run: c12Random},
 			{Name: "nested", N: func(c *Ctx) int { return tierN(c, 3000, 200000) }, Run: c12Nested},
+			{Name: "prose", N: func(c *Ctx) int { return tierN(c, 600, 60000) }, Run: c12Prose},
 			{Name: "long", N: c12LongN, Run: c12Long, Exhaustive: true},
 			{Name: "direct", N: func(c *Ctx) int { return tierN(c, 40000, 8000000) }, Run: c12Direct},
 		},
